@@ -505,8 +505,11 @@ class Fn:
             elif k == 'cidx':
                 if e[0] == 'agg' and e[1] == 'array' and not p['end'] and p['off'] < len(e[2]):
                     e = e[2][p['off']]
+                elif e[0] == 'repeat' and not p['end']:
+                    e = e[1]       # [x; N][i] is x
                 else:
-                    e = ('cidx', e, p['off'], p['end'])
+                    m = self._array_map_elem(e, p['off']) if not p['end'] else None
+                    e = m if m is not None else ('cidx', e, p['off'], p['end'])
             elif k == 'subslice':
                 e = ('subslice', e)
             elif k == 'downcast':
@@ -514,6 +517,39 @@ class Fn:
             else:
                 e = ('other', 'proj')
         return e
+
+    def _array_map_elem(self, e, i):
+        """`[a, b].map(|x| body)[i]` is body[x := element i] (captures replaced by the captured operands)"""
+        if not (e[0] == 'call' and e[1].endswith('::map') and 'array' in e[1] and len(e[2]) == 2):
+            return None
+        arr, cl = strip_refs(e[2][0]), strip_refs(e[2][1])
+        if not (arr[0] == 'agg' and arr[1] == 'array' and i < len(arr[2]) and cl[0] == 'agg' and cl[1].startswith('closure:')):
+            return None
+        cf = self.crate.fns.get(cl[1][len('closure:'):])
+        if cf is None or cf.argc != 2 or len(cf.reach) > 40:
+            return None
+        try:
+            body = cf.local_expr(0)
+        except RecursionError:
+            return None
+        if body[0] == 'var':
+            return None
+        elem = arr[2][i]
+        caps = cl[2]
+
+        def sub(x, d=0):
+            if not isinstance(x, tuple) or d > 60:
+                return x
+            if x[0] == 'param' and x[1] == 2:
+                return elem
+            if x[0] == 'upvar' and x[1] < len(caps):
+                return caps[x[1]]
+            if x[0] == 'call':
+                return (x[0], x[1], tuple(sub(a, d + 1) for a in x[2]), x[3])
+            if x[0] == 'agg':
+                return (x[0], x[1], tuple(sub(a, d + 1) for a in x[2]))
+            return tuple(sub(a, d + 1) if isinstance(a, tuple) else a for a in x)
+        return sub(body)
 
     def local_expr(self, l, at=None, depth=0):
         if l in self._expr_cache:
